@@ -54,11 +54,14 @@ BindingOK(ev, pre) ==
 
 MayChange(ev) == {ev.call.h} \cup (IF ev.call.h = "g1" THEN BSeqSet(ev.sharers) ELSE {})
                              \cup (IF ev.call.op \in {"copy", "new", "new_hrg"} THEN {OtherG(ev.call.h)} ELSE {})
-Broken(pre, post) == { h \in DOMAIN post : ObjWFClause(pre[h]) = "ok" /\ ObjWFClause(post[h]) # "ok" }
+\* objects the call broke (a copy of an already ill-formed object is not blamed on copy())
+BrokenBy(ev, pre, post) ==
+  { h \in DOMAIN post : /\ ObjWFClause(pre[h]) = "ok" /\ ObjWFClause(post[h]) # "ok"
+                        /\ ~(ev.call.op = "copy" /\ h = OtherG(ev.call.h) /\ ObjWFClause(pre[ev.call.h]) # "ok") }
 
 Clause(ev) ==
   LET pre == States[ev.pre]  post == States[ev.post]  c == ev.call IN
-  IF Broken(pre, post) # {} THEN ObjWFClause(post[CHOOSE h \in Broken(pre, post) : TRUE])
+  IF BrokenBy(ev, pre, post) # {} THEN ObjWFClause(post[CHOOSE h \in BrokenBy(ev, pre, post) : TRUE])
   ELSE IF ev.out = "raise" /\ post # pre THEN "FailureAtomic"
   ELSE IF IsMutator(c.op) /\ \E h \in DOMAIN post \ MayChange(ev) : post[h] # pre[h] THEN "CopyIndependent"
   ELSE IF c.op = "copy" /\ ev.out = "ok" /\ post[OtherG(c.h)] # post[c.h] THEN "CopyEqualsOriginal"
@@ -69,7 +72,7 @@ Clause(ev) ==
 
 KindTag(o) == IF o.k \in {"graph", "fgraph"} THEN "graph" ELSE IF o.k = "none" THEN "none" ELSE "hrg"
 Tags(ev) ==
-  LET pre == States[ev.pre]  post == States[ev.post] B == Broken(pre, post) IN
+  LET pre == States[ev.pre]  post == States[ev.post] B == BrokenBy(ev, pre, post) IN
   <<ev.call.op, IF ev.call.h \in {"g1", "g2"} THEN "target_graph" ELSE "target_hrg">>
      \o (IF B # {} THEN <<IF KindTag(post[CHOOSE h \in B : TRUE]) = "graph" THEN "broken_graph" ELSE "broken_hrg">> ELSE <<>>)
 
